@@ -59,6 +59,11 @@ def gen_case(rng):
         last_end = max(t + l for t, l in ps)
         notes += [last_end + 10 * i for i in range(1, rng.randint(2, 5))]
     notes = sorted(set(notes))
+    if rng.random() < 0.15:
+        # the same picture far along the tick axis (around 2^31, 2^32 and beyond): membership is a matter of integers only
+        base = rng.choice([2 ** 31 - 100, 2 ** 32 - 300, 2 ** 32 - 1500, 2 ** 32 + 5, 10 ** 10])
+        ps = [(t + base, l) for t, l in ps]
+        notes = [t + base for t in notes]
     return ps, notes
 
 
@@ -69,7 +74,7 @@ def gen_sus(rng, notes):
     return [rng.choice([0, 0, 1, 50, 300, 2000]) for _ in notes]
 
 
-def build(ps, notes, sus=None):
+def build(ps, notes, sus=None, layout=None):
     lines = []
     sus = sus or [0] * len(notes)
     items = [(t, 0, "%d = S 2 %d" % (t, l)) for t, l in ps] + [(t, 1, "%d = N %d %d" % (t, i % 5, sus[i])) for i, t in enumerate(notes)]
@@ -77,15 +82,15 @@ def build(ps, notes, sus=None):
     items.sort(key=lambda x: (x[0], x[1]))
     lines = [x[2] for x in items]
     text = chart_text(res=192, sync=["0 = TS 4", "0 = B 120000", "600 = B 87500"], tracks=[("ExpertSingle", lines)])
-    return text
+    return laid_out(text, layout)
 
 
-def make_case(ps, notes, sus=None):
-    text = build(ps, notes, sus)
+def make_case(ps, notes, sus=None, layout=None):
+    text = build(ps, notes, sus, layout)
     ch, exc, out = parse_case(text)
     inside = sum(1 for n in notes if any(t <= n < t + l for t, l in ps))
     return dict(
-        case=dict(phrases=[list(p) for p in ps], notes=notes, sus=sus or [0] * len(notes), text=text),
+        case=dict(phrases=[list(p) for p in ps], notes=notes, sus=sus or [0] * len(notes), layout=layout, text=text),
         in_term="((true, %s), %s)" % (coq_list("(%s, %s)" % (coq_Z(t), coq_Z(l)) for t, l in ps), parse_in_term(text)),
         out_term=out,
         nontrivial=len(ps) >= 2 and 0 < inside < len(notes),
@@ -109,18 +114,18 @@ def cases(ctx, n):
         ([(10, 100), (20, 10), (25, 0), (30, 200)], [9, 10, 29, 30, 109, 110, 229, 230]),
     ]
     for c in load_corpus("C05"):
-        fixed.append(([tuple(p) for p in c["phrases"]], c["notes"], c.get("sus")))
+        fixed.append(([tuple(p) for p in c["phrases"]], c["notes"], c.get("sus"), c.get("layout")))
     for f in fixed:
         out.append(make_case(*f))
     while len(out) < n:
         ps, notes = gen_case(rng)
-        out.append(make_case(ps, notes, gen_sus(rng, notes)))
+        out.append(make_case(ps, notes, gen_sus(rng, notes), pick_layout(rng)))
     return out
 
 
 def run(ctx, only=None):
     if only:
-        cs = [make_case([tuple(p) for p in c["phrases"]], c["notes"], c.get("sus")) for c in only if c]
+        cs = [make_case([tuple(p) for p in c["phrases"]], c["notes"], c.get("sus"), c.get("layout")) for c in only if c]
     else:
         cs = cases(ctx, 240 if ctx["tier"] == "quick" else 4000)
     return run_cases("C05", cs, IN_TYPE, PARSE_OUT, VERDICT, SPEC)
